@@ -122,6 +122,40 @@ ms = run.validate_batch(tr, "corrupted-vm-trace", consts={"Deviations": set()}, 
 say("3d three corrupted movement records rejected at exactly those lines", sorted(m["line"] for m in ms) == hit,
     "%s %s" % (hit, [m["fail"] for m in ms]))
 
+# 3e ----------------------------------------------------------------- trace validation against the exact binary64 model
+tr = run.drive("f64", 4000)
+lines = open(tr).read().splitlines()
+run.mismatches = []
+ms = run.validate_batch(tr, "clean-f64-trace", module="XFBatch", skip_ok=True, invariants=("Validate", "Sanity"))
+say("3e clean f64 trace is allowed by XFExpr/XFloat", len(ms) == 0, "%d events" % len(lines))
+hit = []
+for i, l in enumerate(lines):
+    ev = json.loads(l)
+    g = ev.get("got") or {}
+    if i < 20 or "panic" in ev:
+        continue
+    simple = lambda x: x["t"] == "lit" or (x["t"] == "neg" and x["e"]["t"] == "lit")   # certainly inside the claimed fragment
+    if len(hit) == 0 and g.get("t") == "n" and g.get("c") == "fin" and len(g.get("m", [])) == 4 and ev["e"]["t"] == "bin" \
+            and ev["e"]["op"] != "mod" and simple(ev["e"]["l"]) and simple(ev["e"]["r"]):
+        g["m"][0] ^= 1                          # the last bit of the mantissa: one ulp
+    elif len(hit) == 1 and g.get("t") == "b" and ev["e"]["t"] == "cmp" and ev["e"]["l"]["t"] != "all" and ev["e"]["r"]["t"] == "lit" and ev["e"]["l"]["t"] == "lit":
+        g["v"] = not g["v"]
+    elif len(hit) == 2 and g.get("t") == "s" and ev["e"]["t"] == "sub3" and len(g["v"]) >= 2 and simple(ev["e"]["p"]) and simple(ev["e"]["l"]):
+        g["v"] = g["v"][:-1]                    # one character less
+    elif len(hit) == 3 and ev["e"]["t"] == "bin" and ev["e"]["op"] == "+" and g.get("t") == "n" and simple(ev["e"]["l"]) and simple(ev["e"]["r"]):
+        ev["x"] = ev["x"].replace(" + ", " - ", 1)   # the text is not the rendering of the recorded tree
+    else:
+        continue
+    hit.append(i + 1)
+    lines[i] = json.dumps(ev)
+    if len(hit) == 4:
+        break
+open(tr, "w").write("\n".join(lines) + "\n")
+run.mismatches = []
+ms = run.validate_batch(tr, "corrupted-f64-trace", module="XFBatch", skip_ok=True, invariants=("Validate", "Sanity"))
+say("3f one ulp / one flipped boolean / one dropped character / one altered text rejected at exactly those lines",
+    sorted(m["line"] for m in ms) == hit and len(hit) == 4, "%s %s" % (hit, [m["fail"] for m in ms]))
+
 # 4 ------------------------------------------------------------------
 scratch = "/tmp/mut/nohooks"
 shutil.rmtree(scratch, ignore_errors=True)
